@@ -3,7 +3,7 @@
 // Contracts for package ctlog, checked by /verif's govc (comment-only file: no declarations).
 package ctlog
 
-//@ func ctlog.signTreeHead props C01 C11
+//@ func ctlog.signTreeHead props C01 C02 C11
 //@   defines ret1 == nil ==> isSignedFor(ret0, c, tree)
 //@   call ct.SerializeSTHSignatureInput requires [C11] signs-this-tree-head: c_sth.Version == 0 && (tree.N >= 0 ==> c_sth.TreeSize == tree.N) && (tree.Time >= 0 ==> c_sth.Timestamp == tree.Time) && c_sth.SHA256RootHash == tree.Hash
 //@   call ctlog.digitallySign requires [C11] signs-the-rfc6962-input-with-the-log-key: c_k == c.Key && c_msg == sthBytes
@@ -16,7 +16,7 @@ package ctlog
 //@   returns [C11] returns-the-signed-note: ret1 == nil ==> ret0 == signedNote
 
 //@ pure func tlsSig(sig bytes) bytes = byte1(4) + byte1(3) + u16(len(sig)) + sig
-//@ func ctlog.digitallySign props C02 C09 C11
+//@ func ctlog.digitallySign props C02 C07 C09 C11
 //@   call ecdsa.(*PrivateKey).Sign requires [C11] deterministic-rfc6979-over-sha256: c_recv == k && c_rand == nil && c_digest == sha256Of(msg) && typeof(c_opts) == typeid("crypto.Hash") && cast(c_opts, "crypto.Hash") == 5
 //@   ensures [C11] layout-and-determinism: ret1 == nil ==> ret0 == tlsSig(ecdsaDetSig(k, sha256Of(msg)))
 
@@ -31,12 +31,12 @@ package ctlog
 //@ func ctlog.(*Log).edgeTilesHashReader props C01 C08
 //@   defines readerSeq(ret) == seqOfTree(l.tree.Tree)
 
-//@ func ctlog.hashTreeHead props C01
+//@ func ctlog.hashTreeHead props C01 C08
 //@   ensures [C01] fields: ret1 == nil ==> ret0.N == n && ret0.Time == t
 //@   ensures [C01] root: (ret1 == nil && typeof(r) == typeid("*torchwood.HashReaderOverlay") && n == slenQ(cast(r, "*torchwood.HashReaderOverlay").gseq)) ==> ret0.Hash == mth(cast(r, "*torchwood.HashReaderOverlay").gseq)
 //@   ensures [C01] empty: (ret1 == nil && n == 0) ==> ret0.Hash == mth(emptySeq())
 
-//@ func ctlog.applyStagedUploads props C03 C04
+//@ func ctlog.applyStagedUploads props C03 C04 C08
 //@   requires config != nil
 //@   init gUp == emptyset("set[string]")
 //@   invariant "for" every-record-read-so-far-was-handed-to-upload: reader != nil && g != nil && reader.grecs == tarRecs(stagedUploads) && 0 <= reader.gpos && reader.gpos <= tlen(reader.grecs) && g.gspawned == reader.gpos
@@ -127,7 +127,7 @@ package ctlog
 
 //@ pure func opensTo(b bytes, config Ref, c torchwood.Checkpoint) bool
 //@ pure func ckTimeOf(b bytes) int
-//@ func ctlog.openCheckpoint props C01 C06 C08 C11
+//@ func ctlog.openCheckpoint props C01 C03 C06 C08 C11
 //@   requires config != nil
 //@   returns [C06,C11] verifier: ret2 == nil ==> openedBy(n, b, vlist2(v1, iface(v2))) && isRFCVerifier(v1, config.Name, publicOf(config.Key)) && v1Found
 //@   returns [C06,C11] parsed: ret2 == nil ==> c == ckptOf(n.Text) && ret0 == c && ret1 == timestamp
@@ -138,7 +138,7 @@ package ctlog
 //@ assume func ecdsa.(*PrivateKey).Public
 //@   ensures ret == publicOf(recv)
 
-//@ func ctlog.CreateLog props C01 C06
+//@ func ctlog.CreateLog props C01 C03 C04 C06 C07
 //@   requires config != nil
 //@   init gCreateOK == 0 && gUp == emptyset("set[string]") && gUpTried == emptyset("set[string]") && gReplaceTried == 0 && gLockFetches == 0 && gFetchTried == emptyset("set[string]")
 //@   call ctlog.LockBackend.Create requires [C06] no-lock-entry: gLockFetches == 1 && gLockFetchFailed
@@ -149,7 +149,7 @@ package ctlog
 //@   ensures [C06] refuse-existing: gCreateOK <= 1 && gReplaceTried == 0
 //@   ensures [C01,C06] publish-implies-create: gUpTried["checkpoint"] ==> gCreateOK == 1
 
-//@ func ctlog.LoadLog props C01 C03 C04 C06 C08
+//@ func ctlog.LoadLog props C01 C03 C04 C06 C07 C08 C09
 //@   requires config != nil
 //@   init gReplaceTried == 0 && gCreateOK == 0 && gAppliedOK == 0 && gDiscarded == emptyset("set[string]")
 //@   call tlog.TileHashReader requires [C08] verify-against-lock-tree: c_tree == c.Tree
@@ -169,7 +169,7 @@ package ctlog
 //@ ghost var gAccepting bool
 //@ ghost var gIssuerDone set[bytes]
 
-//@ func ctlog.(*Log).AcceptingSubmissions props C17
+//@ func ctlog.(*Log).AcceptingSubmissions props C08 C17
 //@   modifies gAccepting
 //@   defines gAccepting == ret
 
@@ -188,10 +188,10 @@ package ctlog
 // channel private to one waiter; calling one touches no log or pool state.
 //@ assume func ctlog.pool.lowPriority#elem
 
-//@ func ctlog.(*Log).cacheGet props C07
+//@ func ctlog.(*Log).cacheGet props C02 C07
 //@   requires held(&l.poolMu)
 
-//@ func ctlog.(*Log).addLeafToPool props C02 C04 C07 C17
+//@ func ctlog.(*Log).addLeafToPool props C02 C04 C07 C09 C17
 //@   modifies gAddLeafCalls
 //@   defines gAddLeafCalls == old(gAddLeafCalls) + 1
 //@   requires l != nil && l.c != nil && leaf != nil && l.currentPool != nil && !held(&l.poolMu) && !held(&l.issuersMu)
@@ -214,7 +214,7 @@ package ctlog
 //@   ensures [C07] unlocks: !held(&l.poolMu)
 //@   ensures [C17] low-priority-slots-in-range: forall k int :: has(l.currentPool.lowPriority, k) ==> (0 <= k && k < len(l.currentPool.pendingLeaves))
 
-//@ func ctlog.(*Log).sequence props C01 C04 C06 C07 C17
+//@ func ctlog.(*Log).sequence props C01 C02 C03 C04 C06 C07 C17
 //@   requires l != nil && l.c != nil && l.currentPool != nil && !held(&l.poolMu) && realizable(l.tree.Tree) && !closed(l.currentPool.done)
 //@   requires l.tree.N >= 0 && (l.tree.N % 256 == 0 ==> ((!has(l.edgeTiles, -1) || l.edgeTiles[-1].W == 256) && (!has(l.edgeTiles, -2) || l.edgeTiles[-2].W == 256)))
 //@   modifies gAccepting
@@ -228,7 +228,7 @@ package ctlog
 //@   ensures [C04] edge-stays-consistent: l.tree.N >= 0 && (l.tree.N % 256 == 0 ==> ((!has(l.edgeTiles, -1) || l.edgeTiles[-1].W == 256) && (!has(l.edgeTiles, -2) || l.edgeTiles[-2].W == 256)))
 //@   ensures [C06,C17] error-is-fatal: ret != nil ==> Is(ret, errFatal)
 
-//@ func ctlog.(*Log).RunSequencer props C02 C03 C04 C06 C17
+//@ func ctlog.(*Log).RunSequencer props C01 C02 C03 C04 C06 C17
 //@   requires l != nil && l.c != nil && l.currentPool != nil && !held(&l.poolMu) && realizable(l.tree.Tree) && !closed(l.currentPool.done)
 //@   requires l.tree.N >= 0 && (l.tree.N % 256 == 0 ==> ((!has(l.edgeTiles, -1) || l.edgeTiles[-1].W == 256) && (!has(l.edgeTiles, -2) || l.edgeTiles[-2].W == 256)))
 //@   invariant "for" alive: l.currentPool != nil && !held(&l.poolMu) && realizable(l.tree.Tree) && !closed(l.currentPool.done)
@@ -249,7 +249,7 @@ package ctlog
 
 // ---- local filesystem backend (C13)
 
-//@ func ctlog.compareFile props C03 C04 C08 C13
+//@ func ctlog.compareFile props C02 C03 C04 C08 C13
 //@   requires f != nil && gFilePos[f] == 0 && !gReadError
 //@   invariant "for" progress: 0 <= gFilePos[f] && gFilePos[f] <= len(fileContent(f)) && len(data) <= len(old(data)) && gFilePos[f] == len(old(data)) - len(data) && len(b) >= 0
 //@   invariant "for" prefix-equal: fileContent(f)[0:gFilePos[f]] == old(data)[0:gFilePos[f]] && data == old(data)[gFilePos[f]:len(old(data))]
@@ -258,7 +258,7 @@ package ctlog
 //@   ensures [C04,C08,C13] sound: ret == nil ==> fileContent(f) == old(data)
 //@   ensures [C03,C13] complete: (fileContent(f) == old(data) && !gReadError) ==> ret == nil
 
-//@ func ctlog.(*LocalBackend).Upload props C03 C04 C08 C13
+//@ func ctlog.(*LocalBackend).Upload props C02 C03 C04 C08 C13
 //@   requires s != nil
 //@   init gOpenFailed == emptyset("set[string]") && !gReadError
 //@   call durable.WriteFile requires [C13] confined: c_name == pjoin(s.dir, localized(key)) && c_data == data
@@ -268,11 +268,11 @@ package ctlog
 //@   call ctlog.compareFile requires [C04,C08,C13] compares-existing-with-new: c_data == data && gFilePos[c_f] == 0 && gOpenPath[c_f] == path
 //@   returns? [C03,C04,C08,C13] existing-immutable-accepted-only-if-equal: (ret == nil && opts != nil && opts.Immutable) ==> fileContent(f__1) == data
 
-//@ func ctlog.(*LocalBackend).Fetch props C13
+//@ func ctlog.(*LocalBackend).Fetch props C04 C08 C13
 //@   requires s != nil
 //@   call os.ReadFile requires [C13] confined: c_name == pjoin(s.dir, localized(key))
 
-//@ func ctlog.(*LocalBackend).Discard props C13
+//@ func ctlog.(*LocalBackend).Discard props C03 C13
 //@   requires s != nil
 //@   call os.Open requires [C13] confined-open: c_name == pjoin(s.dir, localized(key))
 //@   call os.Remove requires [C13] confined-remove: c_name == pjoin(s.dir, localized(key))
@@ -282,7 +282,7 @@ package ctlog
 //@ census [C13] rename-sites: callers os.Rename within durable.WriteFile in ctlog durable
 
 // ---- S3 object storage backend: one PUT per attempt (primary and hedge), both racing under one cancellable context
-//@ func ctlog.(*S3Backend).Upload props C01 C03 C04
+//@ func ctlog.(*S3Backend).Upload props C01 C02 C03 C04
 //@   requires s != nil && s.client != nil
 //@   call context.WithCancelCause bind raceCtx = ret0
 //@   call s3.(*Client).PutObject requires [C01,C04] every-attempt-is-cancelled-when-the-race-is-decided: c_ctx == raceCtx
@@ -294,7 +294,7 @@ package ctlog
 //@ assume func aws.Int64 params v
 //@   ensures ret != nil && *ret == v
 
-//@ func ctlog.(*S3Backend).Fetch props C04 C08
+//@ func ctlog.(*S3Backend).Fetch props C03 C04 C08
 //@   requires s != nil && s.client != nil
 //@   call s3.(*Client).GetObject requires [C04,C08] fetches-the-named-object: c_recv == s.client && *c_params.Bucket == s.bucket && *c_params.Key == s.keyPrefix + key
 //@   returns [C04,C08] data-only-from-a-complete-read: ret1 == nil ==> (err == nil && ret0 == data)
@@ -407,7 +407,7 @@ package ctlog
 
 // The wait function addLeafToPool hands back blocks until the entry's round is over; it touches no log state.
 //@ assume func ctlog.(*Log).addLeafToPool#ret0 params ctx
-//@ func ctlog.(*Log).addChainOrPreChain props C02 C09 C17
+//@ func ctlog.(*Log).addChainOrPreChain props C02 C07 C09 C17
 //@   requires l != nil && l.c != nil && l.currentPool != nil && !held(&l.poolMu) && !held(&l.issuersMu) && !held(&l.rootsMu)
 //@   requires forall k int :: has(l.currentPool.lowPriority, k) ==> (0 <= k && k < len(l.currentPool.pendingLeaves))
 //@   init gValidateCalls == 0 && gAddLeafCalls == 0
@@ -465,6 +465,6 @@ package ctlog
 //@ func ctlog.computeCacheHash props C02 C07
 //@   ensures [C02,C07] key-is-hash-of-type-issuer-and-certificate: ret == sha256Of(cacheKeyBytes(IsPrecert, IssuerKeyHash, Certificate))
 
-//@ func ctlog.(*PendingLogEntry).asLogEntry props C02 C04 C07
+//@ func ctlog.(*PendingLogEntry).asLogEntry props C02 C04 C07 C09
 //@   ensures [C02,C04,C07] sequenced-entry-is-the-pending-entry-at-index: ret != nil && ret.LeafIndex == idx && ret.Timestamp == timestamp && ret.Certificate == e.Certificate && ret.IsPrecert == e.IsPrecert && ret.IssuerKeyHash == e.IssuerKeyHash && ret.PreCertificate == e.PreCertificate && !ret.RFC6962ArchivalLeaf
 //@   defines fresh(ret)
